@@ -20,3 +20,6 @@ def run(repo, res, tier):
     # tools hand over open files, the library functions usually paths)
     from .. import entryrules as _er
     _er.rule_f4(repo, res)
+    # every dialect that was evaluated is in the report: cells and column widths have the same length
+    from .. import hookrules as _hkz
+    _hkz.rule_zip_len(repo, res)
